@@ -670,6 +670,10 @@ theorem forEach_error_iff {p : Proj} (g : Good p) (names : List String) (opts : 
     have ne : (rootsOf p names).isEmpty = false := by cases h : rootsOf p names <;> simp_all
     cases hw : forEachService p (rootsOf p names) (policyOf opts) <;> simp [withSelectedServices, hw, ne]
 
+/-- without the acyclicity hypothesis `forEach_dependencies_first` is false (witness in `Neg/C15.lean`); the
+full-strength statement is `forEach_calls_exact`, which excuses exactly the edges on a cycle -/
+theorem forEach_dependencies_first_needs_acyclic : ¬Neg.DepsFirst := Neg.deps_first_fails_on_a_cycle
+
 /-! ## round 5: accessors -/
 
 /-- `ServiceNames()` is the sorted list of the enabled keys … -/
@@ -800,6 +804,189 @@ theorem profiles_history {p : Proj} (h : Partition p) (Ps : List (List String)) 
     · rw [this.1 k]; exact (profiles_forgets_partition h P Q).1 k
     · rw [this.2 k]; exact (profiles_forgets_partition h P Q).2.1 k
 
+/-! ## round 5: `Services.GetProfiles` (after its `fix:` commit) -/
+
+/-- `GetProfiles` lists exactly the profiles named by a service of the map, each once, sorted … -/
+theorem getProfiles_exact (svcs : AL Svc) :
+    (∀ x, x ∈ getProfiles svcs ↔ ∃ kv ∈ svcs, x ∈ kv.2.profiles) ∧ (getProfiles svcs).Nodup ∧
+    (getProfiles svcs).Pairwise (· ≤ ·) := by
+  refine ⟨fun x => ?_, ?_, sortNames_sorted _⟩
+  · unfold getProfiles getProfilesPre
+    rw [mem_sortNames, List.mem_eraseDups, List.mem_flatMap]
+  · unfold getProfiles
+    exact (sortNames_perm _).nodup_iff.2 (nodup_eraseDups _)
+
+/-- … hence a function of the map and not of its iteration order (before the fix it was not: `Neg/C15.lean`) -/
+theorem getProfiles_perm {svcs svcs' : AL Svc} (e : svcs.Perm svcs') : getProfiles svcs = getProfiles svcs' := by
+  unfold getProfiles
+  apply sortNames_eq_of_perm
+  unfold getProfilesPre
+  rw [List.perm_ext_iff_of_nodup (nodup_eraseDups _) (nodup_eraseDups _)]
+  intro x
+  rw [List.mem_eraseDups, List.mem_eraseDups, List.mem_flatMap, List.mem_flatMap]
+  exact ⟨fun ⟨a, ha, hx⟩ => ⟨a, e.mem_iff.1 ha, hx⟩, fun ⟨a, ha, hx⟩ => ⟨a, e.mem_iff.2 ha, hx⟩⟩
+
+theorem getProfiles_order_dependent_before_fix : ¬Neg.GetProfilesPermInvariant :=
+  Neg.getProfiles_not_perm_invariant_before_fix
+
+/-- the profiles `GetProfiles` reports for the disabled services named in a `WithServicesEnabled` call are the
+profiles that call activates (`wantedProfiles`), as a set -/
+theorem getProfiles_of_named_disabled {p : Proj} (h : Partition p) (names : List String) (x : String) :
+    x ∈ wantedProfiles p names ↔
+      x ∈ getProfiles (p.disabled.filter fun kv => kv.1 ∈ names ∧ kv.1 ∉ keys p.services) := by
+  rw [(getProfiles_exact _).1]
+  unfold wantedProfiles
+  rw [List.mem_flatMap]
+  constructor
+  · rintro ⟨n, hn, hx⟩
+    by_cases he : n ∈ keys p.services
+    · simp [he] at hx
+    · simp only [he, if_false] at hx
+      cases hl : lookup n p.disabled with
+      | none => simp [hl] at hx
+      | some s =>
+        simp only [hl] at hx
+        exact ⟨(n, s), List.mem_filter.2 ⟨mem_of_lookup hl, by simp [hn, he]⟩, hx⟩
+  · rintro ⟨kv, hkv, hx⟩
+    obtain ⟨hm, hc⟩ := List.mem_filter.1 hkv
+    simp only [decide_eq_true_eq] at hc
+    refine ⟨kv.1, hc.1, ?_⟩
+    simp only [hc.2, if_false]
+    rw [lookup_of_mem h.2.1 (show (kv.1, kv.2) ∈ p.disabled from hm)]
+    exact hx
+
+/-! ## round 5: option lists of `WithSelectedServices`, enable after disable -/
+
+/-- `WithSelectedServices(names, o₁ … oₙ)` is `WithSelectedServices(names, oₙ)`; without option it is
+`WithSelectedServices(names, IncludeDependencies)` -/
+theorem select_options (p : Proj) (names : List String) (opts : List Policy) (o : Policy) :
+    withSelectedServicesOpts p names (opts ++ [o]) = withSelectedServices p names o ∧
+    withSelectedServicesOpts p names [] = withSelectedServices p names .deps := by
+  unfold withSelectedServicesOpts
+  rw [policy_last_wins]
+  exact ⟨rfl, rfl⟩
+
+/-- a service that was enabled, on a project as a load leaves it, comes back when it is disabled and then enabled by
+name — whatever its profiles (they are activated).  What does *not* come back are the `depends_on` entries the other
+services lost when it was disabled (`history_conserved`: dependencies only shrink). -/
+theorem enable_undoes_disable {p : Proj} (g : Good p) (ok : ProfilesOK p) {n : String} (hn : n ∈ keys p.services) :
+    n ∈ keys (withServicesEnabled (withServicesDisabled p [n]) [n]).services := by
+  have hq := withServicesDisabled_partition g.1 [n]
+  have okq : ProfilesOK (withServicesDisabled p [n]) := profilesOK_step g.1 g.2.2 ok (.disable [n]) rfl
+  have hk : n ∈ known (withServicesDisabled p [n]) := by
+    rw [← (partition_step g (.disable [n]) rfl).2.known]
+    exact mem_known.2 (.inl hn)
+  have E := enable_activates_profiles hq [n]
+  unfold EnableSpec at E
+  simp only [List.cons_ne_self, reduceCtorEq, if_false] at E
+  exact (E.2.2.2 okq n (by simp) hk).1
+
+/-- the closure of the names inside the result of a selection is the whole result -/
+theorem reach_in_selection {p q : Proj} {S names : List String} {pol : Policy}
+    (hS : ∀ x, x ∈ S ↔ Reach p.services pol names x) (sp : SelectSpec p S q) (ndq : (keys q.services).Nodup) {x : String}
+    (hx : Reach p.services pol names x) : Reach q.services pol names x := by
+  have inq : ∀ y, Reach p.services pol names y → y ∈ keys q.services := fun y hy => sp.1.2 y ((hS y).2 hy)
+  have look : ∀ y, y ∈ keys q.services → ∃ t s, lookup y q.services = some t ∧ lookup y p.services = some s ∧
+      t.deps = s.deps.filter (fun d => d.1 ∈ S) := by
+    intro y hy
+    obtain ⟨t, ht⟩ := Option.isSome_iff_exists.1 (lookup_isSome.2 hy)
+    have := sp.2.2.1 (y, t) (mem_of_lookup ht)
+    cases hs : lookup y p.services with
+    | none => simp [hs, sat] at this
+    | some s => simp only [hs, sat] at this; exact ⟨t, s, ht, rfl, this⟩
+  induction hx with
+  | root hr hk => exact .root hr (inq _ (.root hr hk))
+  | @step x y hx e ih =>
+    have hy : Reach p.services pol names y := .step hx e
+    refine .step ih ?_
+    cases pol with
+    | deps =>
+      obtain ⟨s, hs, hd, _⟩ := e
+      obtain ⟨t, s', ht, hs', hdeps⟩ := look x (inq x hx)
+      rw [hs] at hs'; cases hs'
+      refine ⟨t, ht, ?_, inq y hy⟩
+      rw [hdeps, mem_keys_filter]
+      obtain ⟨v, hv⟩ := mem_keys.1 hd
+      exact ⟨v, hv, by simpa using (hS y).2 hy⟩
+    | dependents =>
+      obtain ⟨_, s, hs, hd⟩ := e
+      obtain ⟨t, s', ht, hs', hdeps⟩ := look y (inq y hy)
+      rw [hs] at hs'; cases hs'
+      refine ⟨inq x hx, t, ht, ?_⟩
+      rw [hdeps, mem_keys_filter]
+      obtain ⟨v, hv⟩ := mem_keys.1 hd
+      exact ⟨v, hv, by simpa using (hS x).2 hx⟩
+    | ignore => exact e.elim
+
+/-- **selecting is idempotent**: selecting the same names with the same policy in the result of a successful selection
+succeeds and changes nothing — the enabled services are the same map, the disabled services and the profiles the same -/
+theorem select_idempotent {p : Proj} (g : Good p) {names : List String} (hn : names ≠ []) {pol : Policy}
+    {q : Proj} (hq : withSelectedServices p names pol = .ok q) :
+    ∃ q', withSelectedServices q names pol = .ok q' ∧ LookEq q'.services q.services ∧ q'.disabled = q.disabled ∧
+      q'.profiles = q.profiles := by
+  obtain ⟨S, hS, sp, _, _⟩ := select_exact g hn hq
+  have gq : Good q := (partition_step g (.select names pol) hq).1
+  have ndq := gq.1.1
+  have ne : names.isEmpty = false := by cases names <;> simp_all
+  -- the names are enabled in p (else the first selection would have failed), hence in q
+  have namesIn : ∀ n ∈ names, n ∈ keys p.services := by
+    intro n hnm
+    apply Classical.byContradiction
+    intro c
+    have := (select_error_iff g hn pol).2 (.inl ⟨n, hnm, c⟩)
+    rw [hq] at this; cases this
+  have keysq : ∀ x, x ∈ keys q.services ↔ Reach q.services pol names x := by
+    intro x
+    constructor
+    · intro hx
+      exact reach_in_selection hS sp ndq ((hS x).1 (sp.1.1 x hx))
+    · intro hx
+      induction hx with
+      | root _ hk => exact hk
+      | step _ e _ => exact edge_target_mem e
+  cases hw : forEachService q names pol with
+  | outOfFuel => exact absurd hw (forEachService_fuel ndq gq.2.2.services names pol)
+  | noSuchService =>
+    have herr : withSelectedServices q names pol = .err := by simp [withSelectedServices, hw, ne]
+    rcases (select_error_iff gq hn pol).1 herr with ⟨n, hnm, hnk⟩ | ⟨x, hx, hm⟩
+    · exact absurd ((keysq n).2 (reach_in_selection hS sp ndq (.root hnm (namesIn n hnm)))) hnk
+    · obtain ⟨_, hm⟩ := hm
+      cases hl : lookup x q.services with
+      | none => simp [hl, sat] at hm
+      | some t =>
+        simp only [hl, sat] at hm
+        obtain ⟨kv, hkv, _, hmiss⟩ := hm
+        exact absurd (sp.2.1 (x, t) (mem_of_lookup hl) kv.1 (mem_keys_of_mem hkv)) hmiss
+  | ok set' =>
+    have hset : ∀ x, x ∈ set' ↔ x ∈ keys q.services := fun x => by
+      rw [forEachService_reach ndq gq.2.2.services hn hw, keysq]
+    refine ⟨selectResult q set', withSelectedServices_ok ndq hn hw, fun k => ?_, ?_, ?_⟩
+    · show lookup k (selectedPruned set' q.services) = lookup k q.services
+      rw [lookup_selectedPruned ndq]
+      cases hl : lookup k q.services with
+      | none => simp
+      | some t =>
+        have hk : k ∈ set' := (hset k).2 (keys_of_lookup hl)
+        simp only [hk, if_true, Option.map_some, Option.some.injEq]
+        unfold pruneDeps
+        have : t.deps.filter (fun kv => decide (kv.1 ∈ set')) = t.deps := by
+          apply List.filter_eq_self.2
+          intro d hd
+          have := sp.2.1 (k, t) (mem_of_lookup hl) d.1 (mem_keys_of_mem hd)
+          simpa using (hset d.1).2 this
+        rw [this]
+    · have un : unselected set' q.services = [] := by
+        unfold unselected nonSelected
+        have : q.services.filter (fun kv => decide (kv.1 ∉ set')) = [] := by
+          apply List.filter_eq_nil_iff.2
+          intro kv hkv
+          simpa using (hset kv.1).2 (mem_keys_of_mem hkv)
+        rw [this]; rfl
+      show (withServicesDisabled q (unselected set' q.services)).disabled = q.disabled
+      rw [un]; rfl
+    · show (withServicesDisabled q _).profiles = q.profiles
+      exact withServicesDisabled_profiles q _
+
 /-! ## non-vacuity -/
 
 def exSvc (name : String) (profiles : List String) (deps : AL Dep) : Svc :=
@@ -822,5 +1009,24 @@ example : keys (withServicesEnabled exProj ["cache"]).services = ["web", "db", "
 example : keys (withoutUnnecessaryResources exProj).networks = ["n"] ∧
     keys (withoutUnnecessaryResources exProj).secrets = ["s"] := by decide
 example : withSelectedServices exProj ["cache"] .deps = .err := by decide
+
+/-! ### round 5 -/
+
+-- `web → db (required), cache (optional, disabled)`, `job → db`: the callbacks of `ForEachService(["web","job"])`
+example : forEachCalls exProj ["web", "job"] [] = .ok ["job", "db", "web"] ["db", "web", "job"] := by decide
+example : ForEachSpec exProj ["web", "job"] .deps ["db", "web", "job"] := by decide
+-- no name: all enabled services; `IncludeDependents` from `db`: the dependents come first
+example : forEachCalls exProj [] [.ignore] = .ok ["job", "db", "web"] ["web", "db", "job"] := by decide
+example : forEachCalls exProj ["db"] [.deps, .dependents] = .ok ["job", "web", "db"] ["web", "job", "db"] := by decide
+example : ForEachSpec exProj ["db"] .dependents ["web", "job", "db"] := by decide
+-- the acyclicity hypothesis of `forEach_dependencies_first` is satisfiable (and decided here through the executable closure)
+example : ∀ x ∈ keys exProj.services, ∀ y ∈ succ exProj.services .deps x, x ∉ closure exProj.services .deps [y] := by decide
+-- a required dependency on a disabled service is a rejection; an optional one is not
+example : forEachCalls exProj ["cache"] [] = .noSuchService ∧ eachWanted exProj ["cache"] .deps = none := by decide
+example : serviceNames exProj = ["db", "job", "web"] ∧ disabledServiceNames exProj = ["cache"] := by decide
+example : getService exProj "cache" = .disabled ∧ getService exProj "zz" = .notFound := by decide
+example : getServices exProj ["web", "cache"] = .disabled ∧ getServices exProj ["zz", "cache"] = .notFound := by decide
+example : getDependentsForService exProj (exSvc "db" [] []) = ["job", "web"] := by decide
+example : (withProfiles (withProfiles exProj ["p"]) []).services = (withProfiles exProj []).services := by decide
 
 end CV.Sel
